@@ -142,6 +142,34 @@ func (t *decTr) stmt(s ast.Stmt) string {
 				return ""
 			}
 		}
+	case *ast.SelectStmt:
+		// select { case <-ch: A; default: B }  (the non-blocking poll)  =  if <-ch is ready { A } else { B }
+		if len(x.Body.List) == 2 {
+			var recvText, aBody, dBody string
+			okShape := true
+			for _, cl := range x.Body.List {
+				cc := cl.(*ast.CommClause)
+				if cc.Comm == nil {
+					dBody = t.stmts(cc.Body)
+					continue
+				}
+				es, isE := cc.Comm.(*ast.ExprStmt)
+				if !isE {
+					okShape = false
+					break
+				}
+				u, isU := es.X.(*ast.UnaryExpr)
+				if !isU || u.Op != token.ARROW {
+					okShape = false
+					break
+				}
+				recvText = "<-" + t.render(u.X)
+				aBody = t.stmts(cc.Body)
+			}
+			if okShape && recvText != "" && dBody != "" {
+				return "DIf (DAtom " + q("ready "+recvText) + ") " + aBody + " " + dBody
+			}
+		}
 	case *ast.ForStmt:
 		// for { body }: a loop that only a return (or break) ends: `DRange "_" "forever"` — the environment
 		// says how many iterations are looked at
